@@ -7,6 +7,7 @@ empty string is a visible token).
   scanattr|scanxmltext|scanhtmlattr|scanhtmltext|scanjson x<hex>
                                                  -> ok x<value> x<rest> | err
   scheme x<url>                                  -> x31 | x30           (hasScheme)
+  dirrow|filerow <x<prefix>|-> x<item>           -> x<escaped href of an index row>
   bc <x<prefix>|-> x<parent> <depth>             -> x<top-level item> x<parent item>
                                                     (the two breadcrumb `<li>` of a file page)
 -/
@@ -64,6 +65,15 @@ def handleBc : List String → String
     | _, _, _ => "bad-op"
   | _ => "bad-op"
 
+/-- `dirrow|filerow <x<prefix>|-> x<item>`: the row link as it stands in the page (escaped) -/
+def handleRow (f : Option Bytes → Bytes → Bytes) : List String → String
+  | [p, item] =>
+    let pre : Option (Option Bytes) := if p = "-" then some none else (arg p).map some
+    match pre, arg item with
+    | some pre, some item => out (html (f pre item))
+    | _, _ => "bad-op"
+  | _ => "bad-op"
+
 def step (line : String) : String :=
   match line.trimAscii.toString.splitOn " " with
   | "xmlattr" :: args => enc xmlAttr args
@@ -79,6 +89,8 @@ def step (line : String) : String :=
   | "scanhtmltext" :: args => scan scanHtmlText args
   | "scanjson" :: args => scan (scanJson []) args
   | "bc" :: args => handleBc args
+  | "dirrow" :: args => handleRow dirRowUrl args
+  | "filerow" :: args => handleRow fileRowUrl args
   | "scheme" :: args => enc (fun u => if hasScheme u then [49] else [48]) args
   | _ => "bad-op"
 
